@@ -5,6 +5,7 @@ package main
 import (
 	"context"
 	"fmt"
+	"go/constant"
 	"go/token"
 	"go/types"
 	"os"
@@ -392,6 +393,15 @@ func VerifyFunc(g *Gen, fn *ssa.Function, con *Contract, maxPaths int) *FuncVC {
 					vc.errs = append(vc.errs, fmt.Sprintf("inv %s: %v", c.Label, err))
 				}
 			}
+			// single-state rely clauses (environment assumptions such as bounds) also hold at entry
+			for _, c := range vc.step.spec.Relies {
+				if strings.Contains(c.Src, "old(") {
+					continue
+				}
+				if t, err := env.Bool(c.E); err == nil {
+					st.assume(t)
+				}
+			}
 		}
 	}
 	vc.assumeClauses(st, env, con.Requires, "requires")
@@ -639,7 +649,25 @@ func (vc *FuncVC) explore(st *State, b *ssa.BasicBlock, idx int, prev *ssa.Basic
 			vc.finish(st, res)
 			return
 		case *ssa.Panic:
-			st.oblige("nopanic[explicit]", "false", "explicit panic")
+			msg := "explicit"
+			if mi, ok := x.X.(*ssa.MakeInterface); ok {
+				if c, ok := mi.X.(*ssa.Const); ok && c.Value != nil && c.Value.Kind() == constant.String {
+					m := constant.StringVal(c.Value)
+					if len(m) > 28 {
+						m = m[:28]
+					}
+					msg = "panic:" + strings.Map(func(r rune) rune {
+						if r == ' ' {
+							return '-'
+						}
+						if r == '[' || r == ']' {
+							return -1
+						}
+						return r
+					}, m)
+				}
+			}
+			st.oblige("nopanic["+msg+"]", "false", "explicit panic")
 			if top {
 				vc.paths++
 			}
